@@ -507,6 +507,8 @@ std::string deck_text(const Model& m, const DeckOpts& d) {
             o << " /\n/\n";
         } else o << "TSTEP\n  " << num(st->days * tfac) << " /\n";
     }
+    // a deck truncated after report step k keeps block k, i.e. the keywords entered at the end of step k
+    if (d.truncate_after >= 0 && nsteps < m.nsteps()) { const StepDef& st = m.steps[static_cast<size_t>(nsteps)]; for (auto& kw : st.kws) o << kw.text(); if (!d.strip_actions) for (auto& a : st.actions) o << action_text(a, m.units == "LAB" ? 3600.0 : 86400.0); }
     // keywords appended to the last block (actions applied at the final report step)
     { auto it = d.append_to_block.find(nsteps); if (it != d.append_to_block.end()) for (auto& kw : it->second) o << kw.text(); }
     o << "END\n";
